@@ -109,6 +109,14 @@ def templates():
     add("unknownTable", "ddlTarget", "table", (1,), "create view zv9 as select 1 a", "would-succeed-create-view")
     add("unknownTable", "dmlTarget", "table", (1,), "insert into t2 values (5)", "would-succeed-insert")
     add("unknownTable", "query", "table", (1,), "select * from t", "would-succeed-select")
+    for sql in ("create table if not exists z9 (a int)", "create or replace table z9 (a int)", "create table if not exists t (a int)", "create or replace view zv9 as select 1 a",
+                "drop table t2", "drop table if exists t2", "drop table if exists nope", "drop view v", "drop view if exists v", "alter table if exists t2 add column z int",
+                "truncate table if exists t2"):
+        add("unknownTable", "ddlTarget", "table", (1,), sql, "would-succeed-" + sql.split(" (")[0].replace(" ", "-"))
+    # CREATE / DROP SCHEMA need a current DATABASE only: every spelling, in the session without one
+    for sql in ("create schema z8", "create schema if not exists z8", "create schema if not exists s2", "create or replace schema z8", "drop schema s2", "drop schema if exists s2",
+                "drop schema if exists nos", "drop schema s2 cascade"):
+        add("unknownSchema", "ddlTarget", "schema", (1,), sql, "would-succeed-db-" + sql.replace(" ", "-"))
     # finding positions (run with database+schema set only)
     add("unknownTable", "commentTarget", "noTable", (1,), "comment on table nope is 'c'", "comment-on")
     add("unknownTable", "commentTarget", "noTable", (1,), "alter table nope set comment = 'c'", "set-comment")
@@ -162,6 +170,10 @@ def scen_cases():
         for st in SCEN_STATES:
             if t["variant"].startswith("would-succeed") and st not in NO_SCHEMA_STATES:
                 continue  # statements that are only wrong because the session lacks the schema / database they need
+            if t["variant"].startswith("would-succeed-db-") and st != "FF":
+                continue  # ... these lack only a database
+            if st == "DS" and t["qual"] != 1:
+                continue  # qualified names behave as in the database-only session (TF), already covered
             if st in ("DSQ", "DSI") and not t["variant"].startswith("would-succeed"):
                 continue  # the other spellings of the DROP: the statements that would otherwise succeed are enough
             if t["pos"] in FINDING_POS and st != "TT":
@@ -316,7 +328,36 @@ EXTRA = {
 DESCRIBES = ["describe-select", "describe-missing", "describe-missing-column"]
 # checked `cursor.description` reads (op kind "D"): wire encoding of the DESCRIBE call + DuckDB's reaction, demanded outcome when open
 DESCR = {"plain": ("d:11.0.-.-", "ok"), "dropped-table": ("d:11.2.-.-", "P:2003:42S02"), "dropped-column": ("d:11.1.-.-", "P:2043:02000")}
+# uses of the connection that are not a plain execute on the tracked cursor (op kind "K"): wire encoding (an execute on another
+# cursor: `u:`), demanded outcome on an open connection; on a closed one every one of them must raise DatabaseError 250002/08003
+CONN_USES = {
+    "conn.commit()": "u:00.3.-.-", "conn.rollback()": "u:00.3.-.-", "conn.cursor().execute('select 1')": "u:00.0.-.-",
+    "conn.execute_string('select 1; select 2')": "u:00.0.-.-,00.0.-.-", "write_pandas(conn, df, 'T2')": "u:00.0.-.-",
+    "write_pandas(conn, df, 'T9', auto_create_table=True)": "u:00.0.-.-,00.0.-.-", "conn.cursor().executemany(insert, 2 rows)": "u:11.0.-.-,11.0.-.-",
+    "conn.cursor().describe('select * from t')": "u:11.0.-.-",
+}
 OTHERS = ["fetchall", "fetchone", "description", "rowcount", "fetchmany"]
+
+
+def conn_use(conn, name):
+    import pandas as pd
+    import snowflake.connector.pandas_tools as pt
+    if name == "conn.commit()":
+        conn.commit()
+    elif name == "conn.rollback()":
+        conn.rollback()
+    elif name.startswith("conn.cursor().execute("):
+        conn.cursor().execute("select 1")
+    elif name.startswith("conn.execute_string"):
+        list(conn.execute_string("select 1; select 2"))
+    elif name.startswith("write_pandas(conn, df, 'T2')"):
+        pt.write_pandas(conn, pd.DataFrame({"A": [1]}), "T2")
+    elif name.startswith("write_pandas"):
+        pt.write_pandas(conn, pd.DataFrame({"A": [1]}), "T9", auto_create_table=True)
+    elif name.startswith("conn.cursor().executemany"):
+        conn.cursor().executemany("insert into t2 values (%s)", [(1,), (2,)])
+    else:
+        conn.cursor().describe("select * from t")
 
 
 def stmt(name):
@@ -331,6 +372,10 @@ def designed_seqs():
     out.append({"kind": "seq", "ops": tmp + [["y", "drop table tmpx"], ["D", "dropped-table"], ["o", "fetchall"], ["x", "ok-const"], ["D", "plain"]]})
     out.append({"kind": "seq", "ops": tmp + [["y", "alter table tmpx drop column a"], ["D", "dropped-column"], ["x", "fail-table"], ["D", "dropped-column"]]})
     out.append({"kind": "seq", "ops": tmp + [["y", "drop table tmpx"], ["c", "close"], ["D", "dropped-table"]]})
+    # any use of a closed connection
+    for u in CONN_USES:
+        out.append({"kind": "seq", "ops": [["x", "fail-table"], ["K", u], ["c", "close"], ["K", u], ["o", "fetchall"], ["K", u]]})
+    out.append({"kind": "seq", "ops": [["c", "close"]] + [["K", u] for u in CONN_USES]})
     # describe() is an execute on the cursor itself: it sets / clears cursor.sqlstate like any other
     for a in ("fail-column", "fail-table", "ok-select", "undefined-var"):
         for b in DESCRIBES:
@@ -408,6 +453,9 @@ def _real_seq(case, shared=None):
                 elif kind == "D":
                     outcome = "ok"
                     cur.description
+                elif kind == "K":
+                    outcome = "ok"
+                    conn_use(conn, name)
                 elif kind == "y":
                     conn.cursor().execute(name)
                 elif kind == "c":
@@ -423,7 +471,7 @@ def _real_seq(case, shared=None):
                 elif name == "description":
                     cur.description
             except Exception as e:
-                outcome = enc_exc(e) if kind in ("x", "B", "D") else "-"
+                outcome = enc_exc(e) if kind in ("x", "B", "D", "K") else "-"
             out.append([outcome, cur.sqlstate])
     return out
 
@@ -459,7 +507,7 @@ def _lines(cases):
             a, b, _ = STATES[c["state"]]
             out.append("\t".join(["err", "scen", c["cause"], c["pos"], c["refKind"], str(c["qual"]), "1" if a else "0", "1" if b else "0"]))
         else:
-            ops = ";".join("o" if k in ("o", "y") else "c" if k == "c" else DESCR[n][0] if k == "D" else stmt(n)[1] for k, n in c["ops"])
+            ops = ";".join("o" if k in ("o", "y") else "c" if k == "c" else DESCR[n][0] if k == "D" else CONN_USES[n] if k == "K" else stmt(n)[1] for k, n in c["ops"])
             a, b, _ = STATES[c.get("state", "TT")]
             out.append("\t".join(["err", "ops", "1" if a else "0", "1" if b else "0", "-", ops]))
     return out
@@ -499,12 +547,12 @@ def _check_seq(chk, case, real, reply):
     steps = reply["impl"].split(";")
     names = [n for _, n in case["ops"]]
     state = case.get("state", "TT")
-    chk.case(("seq", state, tuple(map(tuple, case["ops"]))), nontrivial=any(k == "x" and stmt(n)[2] not in ("ok", None) for k, n in case["ops"]))
+    chk.case(("seq", state, tuple(map(tuple, case["ops"]))), nontrivial=any((k == "x" and stmt(n)[2] not in ("ok", None)) or k == "K" for k, n in case["ops"]))
     closed = False
     for i, ((kind, name), (r_out, r_state), step) in enumerate(zip(case["ops"], real, steps)):
         m_out, m_state, _m_changed, key = step.split("|")
         m_state = None if m_state == "-" else m_state
-        chk.count(f"op:{'execute' if kind == 'x' else 'describe()' if kind == 'B' else 'description (checked)' if kind == 'D' else 'other-cursor' if kind == 'y' else name}")
+        chk.count(f"op:{'connection-use' if kind == 'K' else 'execute' if kind == 'x' else 'describe()' if kind == 'B' else 'description (checked)' if kind == 'D' else 'other-cursor' if kind == 'y' else name}")
         if kind == "c":
             closed = True
         if kind in ("x", "B"):
@@ -518,6 +566,9 @@ def _check_seq(chk, case, real, reply):
         elif kind == "D":
             spec_o = "D:250002:08003" if closed else DESCR[name][1]
             spec_state = m_state          # reading description never touches cursor.sqlstate
+        elif kind == "K":
+            spec_o = "D:250002:08003" if closed else "ok"
+            spec_state = m_state          # another cursor's business: this cursor's sqlstate stays
         else:
             spec_o, spec_state = "-", m_state
         if (r_out, r_state) == (spec_o, spec_state):
@@ -525,7 +576,7 @@ def _check_seq(chk, case, real, reply):
                 chk.violation(f"model inconsistency: op #{i} {name}: model {m_out}/{m_state} vs spec {spec_o}/{spec_state}", case, broken="C07_sqlstate_ops", failing_input=False)
                 return
             continue
-        shown = stmt(name)[0] if kind == "x" else f"cursor.describe({stmt(name)[0]!r})" if kind == "B" else "cursor.description" if kind == "D" else name
+        shown = name if kind == "K" else stmt(name)[0] if kind == "x" else f"cursor.describe({stmt(name)[0]!r})" if kind == "B" else "cursor.description" if kind == "D" else name
         what = (f"session {state}, ops {names}: op #{i} `{shown}`{' on the closed connection' if closed else ''} gave {r_out} with cursor.sqlstate={r_state!r}; "
                 f"required {spec_o} with cursor.sqlstate={spec_state!r}")
         if key != "-" and (r_out, r_state) == (m_out, m_state):
